@@ -9,11 +9,18 @@ def compile(r: str):
     else:
         expr = r
 
-    states = [expr]
-    state_numbers = {expr: 0}
-    transitions = [[]]
-    stack = [expr]
+    states = []
+    state_numbers = {}
+    transitions = []
+    stack = []
 
+    def add_state(state):
+        states.append(state)
+        state_numbers[state] = len(state_numbers)
+        transitions.append([])
+        stack.append(state)
+
+    add_state(expr)
     while stack:
         state = stack.pop()
         state_number = state_numbers[state]
@@ -33,10 +40,7 @@ def compile(r: str):
 
             # Add state if not yet present:
             if next_state not in state_numbers:
-                states.append(next_state)
-                state_numbers[next_state] = len(state_numbers)
-                transitions.append([])
-                stack.append(next_state)
+                add_state(next_state)
 
             # Add transitions to next state:
             next_state_number = state_numbers[next_state]
@@ -46,6 +50,11 @@ def compile(r: str):
                 )
 
         transitions[state_number].sort()
+
+        # The error state is not reachable when every text is the prefix
+        # of a match (for example '.*'), but it must have a number:
+        if not stack and expr.null not in state_numbers:
+            add_state(expr.null)
 
     accepts = [state.nullable() for state in states]
     error = state_numbers[expr.null]
